@@ -118,7 +118,8 @@ def render_rules(rep, prog, oks):
     for label, p in sorted(reps.items()):
         ip, outs = run_fmt(prog, p, merge=True)
         if ip.unsummarised:
-            rep.violation("AI", "unsummarised:%s" % sorted(ip.unsummarised)[0], "rendering analysis met unsummarised callees: %s" % sorted(ip.unsummarised))
+            from .common import unsummarised_policy
+            unsummarised_policy(rep, ip.unsummarised, "rendering analysis")
         for k, ob in ip.obligations.items():
             if ob["failed"]:
                 rep.violation("R1", "render:panic-site:%s" % "|".join(k.split("|")[1:3]), "possible panic while rendering %s: %s %s" % (label, k, ob["detail"]))
